@@ -72,7 +72,8 @@ def run_case(case):
     desc = case["desc"]
     spec = {"vars": desc["vars"], "sizes": desc["sizes"], "ret": desc["ret"],
             "log": None, "str_var": desc.get("str_var"),
-            "dict_plain": desc.get("dict_plain")}
+            "dict_plain": desc.get("dict_plain"),
+            "mixed_dtype": desc.get("mixed_dtype")}
     fn = labelled.make_fn(spec)
     models.LOG.clear()
     entry = case["entry"]
@@ -332,6 +333,8 @@ def runner_desc(draw, to_df=False, allow_xobj=True):
             "dim_coords": dim_coords, "constants": consts,
             "dim_const_as": dim_const_as,
             "dict_plain": draw(st.booleans()),
+            "mixed_dtype": (not xobj) and draw(st.sampled_from(
+                [False, False, True])),
             "resources": resources, "attrs": attrs}
 
 
